@@ -411,6 +411,27 @@ theorem c06_duplicates_are_counted (interval : Nat) (lids : List Nat) (mid : Nat
   | nil => rfl
   | cons l ls ih => by_cases h : histBucket interval (mid l) = b <;> simp [List.filter_cons, h, ih]
 
+/-! ## JSON rendering for HTTP clients -/
+
+/-- rounding a natural number to a `p`-bit mantissa, ties to even (what rendering a value with `bitSize = p` bits
+of precision does to an integer) -/
+def roundBits (p n : Nat) : Nat :=
+  if n < 2 ^ p then n else
+    let e := Nat.log2 n + 1 - p
+    let q := n / 2 ^ e
+    let r := n % 2 ^ e
+    let up := decide (r > 2 ^ (e - 1)) || (decide (r = 2 ^ (e - 1)) && decide (q % 2 = 1))
+    (if up then q + 1 else q) * 2 ^ e
+
+/-- **the JSON rendering must use the full float64 precision**: with 53 bits every count / integral sum below 2^53
+is rendered as itself (so distinct values stay distinct: the rendering is injective there; for all other float64
+values this is strconv's shortest-round-trip contract, trusted); with float32's 24 bits it is not - 2^24 + 1
+documents would be reported as 2^24, 2140234007 as 2140233984 (printed 2140234000).  `c06_x_json_precision` pins `bitSize = 64`. -/
+theorem c06_json_precision :
+    (∀ n, n < 2 ^ 53 → roundBits 53 n = n) ∧
+    roundBits 24 16777217 = 16777216 ∧ roundBits 24 16777216 = 16777216 ∧ roundBits 24 2140234007 = 2140233984 := by
+  refine ⟨fun n h => by simp [roundBits, h], by decide, by decide, by decide⟩
+
 /-! ## values -/
 
 /-- **count / sum / min / max / not-exists of a bin** are those of the documents' values: this is the content of
@@ -631,6 +652,10 @@ theorem c06_x_parse_num :
 /-- `aggregationArgsFromProto` decides `SkipWithoutTimestamp` per aggregation, from that aggregation's own interval
 (`aggregate`'s `skipWithoutTimestamp` argument is per aggregation in the model; the handlers are exercised by agg.e2e) -/
 theorem c06_x_skip_per_aggregation : skipPerAggregation = ["agg.Interval != nil"] := by decide
+
+/-- the marshaler of the public API renders every float with `strconv.FormatFloat(v, 'f', -1, 64)`: shortest form
+that parses back to the same float64 -/
+theorem c06_x_json_precision : jsonFormatFloatArgs ≠ [] ∧ ∀ a, a ∈ jsonFormatFloatArgs → a = "'f',-1,64" := by decide
 
 /-- histogram bucket rule of `iterateEvalTree`, accumulation in `MergeQPRs`, time bins of `provideExtractTimeFunc` -/
 theorem c06_x_hist :
